@@ -223,8 +223,17 @@ DIST = ["gaussian", "lognormal", "schulz", "boltzmann", "uniform", "rectangle"]
 
 
 def pd_names(i, dim):
-    names = i.parameters.pd_2d if dim == "2d" else i.parameters.pd_1d
-    return [p.name for p in i.parameters.call_parameters if p.name in names]
+    """Names that may carry dispersity, from the documented rule (every parameter declared with a volume or
+    orientation type, vector elements included; orientation only in 2-D) rather than from the library's own
+    pd_1d/pd_2d sets, so that the workload does not shrink when those sets do."""
+    out = []
+    for p in i.parameters.call_parameters:
+        if not p.polydisperse or p.type == "magnetic":
+            continue
+        if dim != "2d" and p.type == "orientation":
+            continue
+        out.append(p.name)
+    return out
 
 
 def usable_pd(i, pars, dim):
